@@ -1,3 +1,4 @@
+\* = the thorough-tier job "hs-check" of harness/internal/v2/tiers.go (the binder generates its cfg texts; these files are the canonical stand-alone configurations)
 \* Handshake-focused exhaustive configuration: every garbage-length class on
 \* both sides, 0..2 decoys, v1 / wrong-network / partial-prefix initiators,
 \* one application packet per side, every single channel fault.
@@ -15,7 +16,7 @@ CONSTANTS
   Senders = {"I", "R"}
   MaxFaults = 1
   FaultKinds = {"flip", "trunc", "drop", "dup", "swap"}
-  FaultSeqs = {0,1,2,3,4,5,6,7,8}
+  FaultSeqs = {0,1,2,3,4,5,6,7,8,9,10,11,12,13,14,15,16}
   TrackNonces = TRUE
 INIT Init
 NEXT Next
